@@ -35,7 +35,7 @@ func be16(b []byte, v int) []byte { return append(b, byte(v>>8), byte(v)) }
 // that all point at one coverage table covering the glyphs 0..covGlyphs-1.
 func aliasedLayoutTable(kind string, n, covGlyphs int) []byte {
 	b := []byte{0, 1, 0, 0, 0, 10, 0, 12, 0, 14, 0, 0, 0, 0} // header, empty script and feature lists
-	b = append(b, 0, 1, 0, 4)                                  // lookup list: one lookup
+	b = append(b, 0, 1, 0, 4)                                // lookup list: one lookup
 	subLen := 6
 	if kind == "GPOS" {
 		subLen = 8
